@@ -63,7 +63,7 @@ fn junk(rng: &mut Rng) -> Val {
 // Statements that build object `name` with exactly the pairs of `m`, in the
 // insertion order `order`, along a random route.  Returns the route label.
 fn construct(rng: &mut Rng, name: &str, m: &BTreeMap<String, Val>, order: &[String], out: &mut String, tmp: &mut usize) -> String {
-    let route = rng.below(6);
+    let route = rng.below(7);
     match route {
         0 => {
             // one literal, pairs in insertion order, with overwritten duplicates
@@ -146,6 +146,37 @@ fn construct(rng: &mut Rng, name: &str, m: &BTreeMap<String, Val>, order: &[Stri
             let pats: Vec<String> = extra.iter().map(|k| format!("{}: _", lit_str(k))).collect();
             out.push_str(&format!("{{{}, ..{name}}} := {big}\n", pats.join(", ")));
             "destructure-rest".into()
+        }
+        6 => {
+            // {defaults.., overrides..}: two spreads with overlapping keys, the later one wins
+            *tmp += 1;
+            let (d, o) = (format!("dflt{tmp}"), format!("ovr{tmp}"));
+            let mut in_over: Vec<bool> = order.iter().map(|_| rng.chance(1, 2)).collect();
+            if rng.chance(1, 4) {
+                in_over = order.iter().map(|_| true).collect();
+            }
+            let mut ditems = vec![];
+            let mut oitems = vec![];
+            for (i, k) in order.iter().enumerate() {
+                if in_over[i] {
+                    oitems.push(format!("{}: {}", lit_str(k), lit_val(&m[k])));
+                    if rng.chance(2, 3) {
+                        ditems.push(format!("{}: {}", lit_str(k), lit_val(&junk(rng))));
+                    }
+                } else {
+                    ditems.push(format!("{}: {}", lit_str(k), lit_val(&m[k])));
+                }
+            }
+            rng.shuffle(&mut ditems);
+            out.push_str(&format!("{d} := {{{}}}\n{o} := {{{}}}\n", ditems.join(", "), oitems.join(", ")));
+            if rng.chance(1, 3) && !order.is_empty() {
+                // an explicit entry before a spread that contains the same key
+                let k = &order[rng.usize_below(order.len())];
+                out.push_str(&format!("{name} := {{{}: {}, {d}.., {o}..}}\n", lit_str(k), lit_val(&junk(rng))));
+            } else {
+                out.push_str(&format!("{name} := {{{d}.., {o}..}}\n"));
+            }
+            "double-spread".into()
         }
         _ => {
             // shorthand {a} for identifier keys, pairs for the rest
@@ -277,6 +308,53 @@ pub fn build(aux: &J) -> W3Prog {
             expect.push_str(&render(&Val::Obj(o)));
             expect.push('\n');
             observations.push("print-aliased".into());
+        }
+        // a third object that differs from the map in exactly one way: `==` must tell
+        // them apart every time it is asked, in both directions, and must keep
+        // calling the two constructions of the same map equal afterwards
+        if !keys.is_empty() && rng.chance(1, 2) {
+            let c = format!("oc{oi}");
+            let mut m2 = m.clone();
+            let victim = keys[rng.usize_below(keys.len())].clone();
+            let int_keys: Vec<&String> = keys.iter().filter(|k| matches!(m[*k], Val::Int(_))).collect();
+            let how = rng.below(4);
+            let mut restore: Option<(String, Val)> = None;
+            if how == 0 && !int_keys.is_empty() {
+                let k = int_keys[rng.usize_below(int_keys.len())].clone();
+                if let Val::Int(n) = m[&k] {
+                    m2.insert(k.clone(), Val::Int(n + 1 + rng.range(0, 5)));
+                    restore = Some((k, Val::Int(n)));
+                }
+            } else if how == 1 {
+                m2.insert(format!("extra{oi}"), Val::Int(0));
+            } else if how == 2 {
+                m2.remove(&victim);
+            } else {
+                // same size, one key replaced
+                let v = m2.remove(&victim).unwrap_or(Val::Null);
+                m2.insert(format!("{victim}~r"), v);
+            }
+            let k2: Vec<String> = m2.keys().cloned().collect();
+            let mut order_c = k2.clone();
+            rng.shuffle(&mut order_c);
+            routes.push(construct(&mut rng, &c, &m2, &order_c, &mut text, &mut tmp));
+            for (l, r, op, want) in [(&a, &c, "==", "false"), (&c, &b, "==", "false"), (&a, &c, "==", "false"), (&a, &c, "!=", "true"), (&a, &b, "==", "true")] {
+                text.push_str(&format!("print({l} {op} {r})\n"));
+                expect.push_str(want);
+                expect.push('\n');
+            }
+            if rng.chance(1, 2) {
+                // fresh temporaries compared repeatedly (whatever addresses the allocator hands out)
+                let la = lit_val(&Val::Obj(m.clone()));
+                let lc = lit_val(&Val::Obj(m2.clone()));
+                text.push_str(&format!("for _ in [1, 2, 3] {{\n    print({la} == {lc})\n    print({la} == {la})\n}}\n"));
+                expect.push_str("false\ntrue\nfalse\ntrue\nfalse\ntrue\n");
+            }
+            if let Some((k, v)) = restore {
+                text.push_str(&format!("{c}[{}] = {}\nprint({a} == {c})\nprint({c} != {b})\n", lit_str(&k), lit_val(&v)));
+                expect.push_str("true\nfalse\n");
+            }
+            observations.push("==-variant".into());
         }
         if let Some(k) = keys.first() {
             if rng.chance(1, 2) {
